@@ -113,7 +113,9 @@ def witnesses(tier, seed, std='gnu++17'):
             ref = 'extern "C" void @R@(const %s* a, const %s* b, %s* r){ %s s=0; for(int i=0;i<%d;i++) s+=a[i]*b[i]; *r=s; }' % (ct, ct, ct, ct, n)
             W.append(Witness('inner_%s_%s' % (t, 'x'.join(map(str, dims))), 'einsum.inner', {'type': t, 'dims': dims}, wit, ref, [treg('a', t, dims), treg('b', t, dims), rreg('r', t, 1, role='out'), rreg('rref', t, 1)],
                              [{'mod': 'wit', 'fn': '@W@', 'args': ['a', 'b', 'r']}, {'mod': 'ref', 'fn': '@R@', 'args': ['a', 'b', 'rref']}], [{'kind': 'equal', 'a': 'r', 'b': 'rref', 'cells': 1, 'mode': 'ALG'}]))
-    for (d0, d1) in (([3], [4]), ([2], [9]), ([8], [8]), ([2, 3], [4]), ([3], [2, 5]), ([2, 2], [3, 3]), ([5], [17])):
+    pairs = [([3], [4]), ([2], [9]), ([8], [8]), ([2, 3], [4]), ([3], [2, 5]), ([2, 2], [3, 3]), ([5], [17]), ([2, 2], [2, 2]), ([2, 2], [4]), ([4], [2, 2]), ([3, 3], [3, 3])]
+    pairs += [([n0], [n1]) for n0 in (2, 3, 4, 8, 16) for n1 in (2, 3, 4, 8, 9, 16) if [n0, n1] not in ([3, 4], [2, 9], [8, 8])]   # the dyadic kernels are specialised by exact element counts
+    for (d0, d1) in pairs:
         for t in T3:
             ct = CTYPE[t]; n0, n1 = prod(d0), prod(d1); od = d0 + d1
             call = 'outer(a,b)'
